@@ -163,3 +163,11 @@ Definition split_ok (l : list inode) (pieces : list (list inode)) : bool :=
   (if list_eq_dec (list_eq_dec N.eq_dec) (concat ks) (keys_of l) then true else false)
   && forallb (fun p => negb (match p with [] => true | _ => false end)) (match l with [] => [] | _ => pieces end)
   && forallb (fun p => (2 <=? length p)%nat) (removelast pieces).
+
+(** ---- Bucket.write: the value stored in the parent's leaf for an inline bucket: the 16-byte bucket header
+    (root page id 0, sequence) followed by the root node written as a page with id 0 and no overflow ---- *)
+Definition enc_inbucket (root seq : N) : list N := enc_le 8 root ++ enc_le 8 seq.
+Definition bucket_write (seq : N) (n : node) : res (list N) :=
+  let? pg := write n 0 0 in Ok (enc_inbucket 0 seq ++ pg).
+(** the value stored for a paged bucket: just the header (Bucket.spill) *)
+Definition bucket_header_value (root seq : N) : list N := enc_inbucket root seq.
